@@ -823,13 +823,13 @@ func TestC12_P_FailHealContinue(t *testing.T) {
 
 // ---------------------------------------------------------------- positioned reads on very wide nodes
 
-const c12WideRule = "case = file written with a link width of 257..1500 (so that one node holds hundreds to more than a thousand links) x a position strictly inside or at the start of a chunk x the k-th block load after the Seek failing once (k = 1..3, drawn fault kind) or the chunk at the position being unavailable; Seek, ReadFull of a few bytes, the failed read retried on the same reader, then the rest of the file; " +
+const c12WideRule = "case = file written with a link width of 257..3000 (so that one node holds hundreds to more than a thousand links) x a position strictly inside or at the start of a chunk x the k-th block load after the Seek failing once (k = 1..3, drawn fault kind) or the chunk at the position being unavailable; Seek, ReadFull of a few bytes, the failed read retried on the same reader, then the rest of the file; " +
 	"oracle = every read returns bytes of the file at the reader's position - a prefix of the request followed by the injected error, or all of it; after a transient fault the retried read and the rest of the stream are exactly the file from the position on; never wrong bytes, never a silent short read; every case non-trivial; distinct by (width, levels, position class, fault)"
 
 func TestC12_P_WideNodesPositionedFaults(t *testing.T) {
 	ev := newEvid(t, c12WideRule)
 	rapid.Check(t, func(t *rapid.T) {
-		w := rapid.SampledFrom([]int{257, 258, 300, 512, 700, 1025, 1500}).Draw(t, "width")
+		w := rapid.SampledFrom([]int{257, 258, 300, 512, 700, 1025, 1500, 2049, 3000}).Draw(t, "width")
 		cs := rapid.IntRange(2, 5).Draw(t, "chunkSize")
 		nchunks := w
 		switch rapid.IntRange(0, 2).Draw(t, "levels") {
